@@ -119,7 +119,7 @@ def describe():
                  "list subscripts, gadget members; plus handlers) x seeded histories of SET / SET_SAME / spurious and duplicate NOTIFY / "
                  "REPOINT / NULL / DESTROY(+CREATE at the same address) / CREATE / EMIT / ALWAYS_EMIT / BURST events; after each event every "
                  "bound target is compared with the reference value over the observed sources. 10% of cases plant an unobservable read "
-                 "(7 shapes) or its CONSTANT twin. distinct_nontrivial counts distinct (document) and (document, history) pairs executed."),
+                 "(7 shapes) or its CONSTANT twin. distinct_nontrivial counts distinct (document) and (document, history) pairs executed. Changes are biased to what the expressions read; sweep events change everything one expression reads, twice over, with an observation after every change. Most documents are translated over the outputs of an earlier version (fewer or more bindings, same .ui)."),
         "fingerprint": "sha256 of document text; sha256 of (document, history lines)",
         "components": {
             "real": ["qmluic generate-ui release binary built from /repo working tree", "the emitted uisupport_*.h, compiled unmodified (clang++ -std=c++17 -O0 -fsanitize=address,undefined)",
